@@ -213,6 +213,25 @@ class NumpyProxy(types.ModuleType):
     def eye(self, *a, **k):
         return self._filled(numpy.eye, *a, **k)
 
+    # S12: isclose / allclose by numpy's documented formula |a - b| <= atol + rtol * |b| for finite object values
+    def isclose(self, a, b, rtol=1e-05, atol=1e-08, equal_nan=False):
+        if not (_has_sym(a) or _has_sym(b)):
+            return numpy.isclose(a, b, rtol=rtol, atol=atol, equal_nan=equal_nan)
+        _used("S12:isclose(object)")
+        a = numpy.asarray(a, dtype=object)
+        b = numpy.asarray(b, dtype=object)
+        a, b = numpy.broadcast_arrays(a, b)
+        out = numpy.empty(a.shape, dtype=bool)
+        for idx in numpy.ndindex(*a.shape):
+            x, y = Sym.lift(a[idx]), Sym.lift(b[idx])
+            out[idx] = bool(abs(x - y) <= atol + rtol * abs(y))
+        return out if out.shape else numpy.bool_(out[()])
+
+    def allclose(self, a, b, rtol=1e-05, atol=1e-08, equal_nan=False):
+        if not (_has_sym(a) or _has_sym(b)):
+            return numpy.allclose(a, b, rtol=rtol, atol=atol, equal_nan=equal_nan)
+        return bool(numpy.all(self.isclose(a, b, rtol=rtol, atol=atol, equal_nan=equal_nan)))
+
     def common_type(self, *arrays):
         # S11: numpy.common_type refuses object arrays; the symbolic carrier's "common type" is object
         if any(getattr(a, "dtype", None) == object for a in arrays):
@@ -380,4 +399,5 @@ def stub_list() -> List[str]:
         "S7 fresh ndpoly buffers are Havoc atoms",
         "S10 numpy.any/all on object arrays merged into one disjunction per slice",
         "S11 numpy.common_type of object arrays is object",
+        "S12 numpy.isclose/allclose on object arrays: |a-b| <= atol + rtol*|b| (numpy's documented formula, finite values)",
     ]
